@@ -1,0 +1,9 @@
+//go:build !verif
+
+// Package verifhook provides instrumentation points for the external
+// verification harness. Without the "verif" build tag every function is an
+// empty stub which the compiler inlines away.
+package verifhook
+
+// At marks a pre-emption point; a no-op unless built with -tags verif.
+func At(point string, id uint64) {}
